@@ -880,6 +880,7 @@ func (fr *Frame) atPointAsserts(in ssa.Instruction, name string, occ int, args [
 			continue
 		}
 		env := fr.specEnvHere()
+		env.held = fr.held // held(mu) in a guard speaks about the locks held at this program point
 		for i, a := range args {
 			env.bound[fmt.Sprintf("$%d", i)] = a
 		}
